@@ -16,6 +16,7 @@ mod c01;
 mod c02;
 mod c11;
 mod c16;
+mod c17;
 
 use std::io::{BufRead, Write};
 use util::Obs;
@@ -29,6 +30,7 @@ fn table(prop: &str) -> Option<(GenFn, RunFn)> {
         "C02" => Some((c02::generate, c02::run)),
         "C11" => Some((c11::generate, c11::run)),
         "C16" => Some((c16::generate, c16::run)),
+        "C17" => Some((c17::generate, c17::run)),
         "POLY" => Some((polyops::generate, polyops::run)),
         _ => None,
     }
